@@ -406,6 +406,7 @@ func limGrid(level int) []limCfg {
 		{algo: "vegas", initial: 5, max: 8, smoothing: 0.5, probe: 4},
 		{algo: "gradient", initial: 4, min: 1, max: 10, smoothing: 1.0, queue: "fixed2", tol: 2.0, probe: 3},
 		{algo: "gradient", initial: 6, min: 2, max: 10, smoothing: 0.2, queue: "sqrt4", tol: 1.0, probe: -1},
+		{algo: "gradient", initial: 2, min: 1, max: 10, smoothing: 1.0, queue: "fixed4", tol: 2.0, probe: 2}, // initial estimate below the queue allowance
 		{algo: "gradient", initial: 12, min: 10, max: 20, smoothing: 1.0, queue: "fixed2", tol: 1.0, probe: 4}, // minimum well above the queue allowance: after a probe the estimate climbs back from 2
 		{algo: "gradient2", initial: 4, min: 1, max: 10, smoothing: 1.0, queue: "fixed2", longWin: 3},
 		{algo: "gradient2", initial: 6, min: 2, max: 10, smoothing: 0.2, queue: "sqrt4", longWin: 10},
@@ -425,7 +426,6 @@ func limGrid(level int) []limCfg {
 			limCfg{algo: "vegas", initial: 995, max: 1100, smoothing: 1.0, probe: 30},
 			limCfg{algo: "gradient", initial: 995, min: 1, max: 1100, smoothing: 1.0, queue: "sqrt4", tol: 2.0, probe: 1000},
 			limCfg{algo: "gradient2", initial: 995, min: 4, max: 1100, smoothing: 0.5, queue: "sqrt4", longWin: 5},
-			limCfg{algo: "gradient", initial: 2, min: 1, max: 10, smoothing: 1.0, queue: "fixed4", tol: 2.0, probe: 2},
 			limCfg{algo: "aimd", initial: 1, backoff: 0.9, incr: 1},
 		)
 	}
